@@ -9,7 +9,9 @@ From Coq Require Import List NArith Bool.
 From Verif.Common Require Import Labels Packet.
 From Coq Require Import Sorting.Permutation.
 From Verif.Common Require PolicyRef.
-From Verif.C29 Require Import Model Spec ProofsSel ProofsPorts ProofsMain ProofsOrder ProofsValid ProofsBridge ProofsHistory Proofs.
+From Verif.C29 Require Import Model Spec ProofsSel ProofsPorts ProofsMain ProofsOrder ProofsValid ProofsBridge ProofsHistory ProofsMeets ProofsText Proofs.
+From Verif.C29 Require Import ModelText.
+From Verif.C06 Require TokProofs.
 Import ListNotations.
 Open Scope N_scope.
 
@@ -132,6 +134,38 @@ Theorem c29_same_meaning_any_history : forall infer hist todo cl c,
   = k8s_allows (k8s_items todo) cl c.
 Proof. exact same_meaning_any_history. Qed.
 Print Assumptions c29_same_meaning_any_history.
+
+(* MODEL MEETS SPEC.  The oracle of the correspondence run (Spec.ok_case) accepts every case whose implementation
+   observables are the model's: converted policies = conv_np_v of the policies, and the end points of the
+   connections seen by Calico as the model says. *)
+Theorem c29_model_meets_spec : forall infer c,
+  model_run infer c ->
+  forallb np_keys_ok (k_nps c) = true ->
+  forallb (types_defaulted infer) (k_nps c) = true ->
+  ok_case c = true.
+Proof. exact model_meets_spec. Qed.
+Print Assumptions c29_model_meets_spec.
+
+(* label maps are compared in canonical form (first binding per key, sorted): sound for every selector *)
+Theorem c29_canon_labels_same_eval : forall l1 l2 a, canon_labels l1 = canon_labels l2 -> eval a l1 = eval a l2.
+Proof. exact canon_same_eval. Qed.
+Print Assumptions c29_canon_labels_same_eval.
+
+(* TEXT LEVEL (ModelText.v: the selector strings built by fmt.Sprintf / strings.Join / strings.Replace, compared byte
+   for byte with the real model.Policy).  The text parseSelectorAttachPrefix prints re-parses (C06 model of the real
+   tokenizer/parser/printer) to the prefixed AST of Model.v; texts and ASTs of a policy have the same shape.
+   The full statement "every text parses to the AST at its place" is checked per case by computation (Spec.agree);
+   the missing general lemma is stated at the top of ProofsText.v. *)
+Theorem c29_attach_prefix_reparses : forall pfx t a,
+  Verif.C06.Model.parse t = Verif.C06.Model.Ok a ->
+  Verif.C06.TokProofs.wfb true (prefix_ast pfx a) = true ->
+  Verif.C06.Model.parse (attach_prefix pfx t) = Verif.C06.Model.Ok (prefix_ast pfx a).
+Proof. exact attach_prefix_reparses. Qed.
+Print Assumptions c29_attach_prefix_reparses.
+
+Theorem c29_texts_shape : forall infer np, length (np_texts np) = length (policy_asts (conv_np_v infer np)).
+Proof. exact texts_shape. Qed.
+Print Assumptions c29_texts_shape.
 
 (* Bridge to the shared reference semantics Common/PolicyRef.v (felix/proto rules over IP sets): with the IP sets
    defined from the selectors / named ports (what the calculation graph has to compute; `who` maps an address to
